@@ -263,6 +263,14 @@ func effectsCmd(args []string) error {
 				st.Kinds["spokfile-is-a-symlink"]++
 			}
 		}
+		// sometimes the nested working directory has a `spokfile` entry that is a symbolic link to nothing: that entry IS the
+		// nearest spokfile (it cannot be read, so the invocation fails and touches nothing) - it is not to be stepped over
+		if cwd != proj && !strings.Contains(letters, "i") && r.Intn(4) == 0 {
+			if os.Symlink("gone-away", filepath.Join(cwd, "spokfile")) == nil {
+				found, loads, src, proj = true, false, "", cwd
+				st.Kinds["dangling-spokfile-link-in-cwd"]++
+			}
+		}
 		hasClean := strings.Contains(src, "task clean(")
 		hasDefault := strings.Contains(src, "default(")
 		_, cwdSpokErr := os.Stat(filepath.Join(cwd, "spokfile"))
